@@ -158,6 +158,7 @@ func main() {
 	seed := flag.Int64("seed", 1, "seed")
 	n := flag.Int("n", 300, "approximate number of cases per strategy")
 	thorough := flag.Bool("thorough", false, "larger scopes")
+	replay := flag.String("replay", "", "evidence/replay/C08-*.json: re-run exactly that case")
 	search := flag.Int("search", 0, "search mode: run this many forged chains and print failing inputs")
 	flag.Parse()
 	sarama.Logger = nopLogger{}
@@ -170,6 +171,21 @@ func main() {
 		doReplay(*replayIn)
 		return
 	}
+	var only *caseJSON
+	if *replay != "" {
+		b, err := os.ReadFile(*replay)
+		if err != nil {
+			panic(err)
+		}
+		var rp struct {
+			Case *caseJSON `json:"case"`
+		}
+		if err := json.Unmarshal(b, &rp); err != nil || rp.Case == nil {
+			fmt.Println("replay file has no failing case (no-failing-input-found): running the whole check instead")
+		} else {
+			only = rp.Case
+		}
+	}
 	fx := probeFixed()
 	fmt.Printf("INFO tree-has-prev-owner-repair=%v\n", fx)
 
@@ -181,7 +197,14 @@ func main() {
 
 	// ---------------- coreFn boundaries: all n <= 300, m <= 64
 	wb := &cf.Writer{Dir: *out, Prefix: "cases_bounds", Imports: imports, CaseType: "bcase", MismatchFn: "mismatches_bounds", ShardSize: 8}
-	for m := 1; m <= 64; m++ {
+	mLo, mHi := 1, 64
+	if only != nil {
+		mLo, mHi = 1, 0
+		if only.Strategy == "coreFn" {
+			mLo, mHi = only.M, only.M
+		}
+	}
+	for m := mLo; m <= mHi; m++ {
 		ids := make([]string, m)
 		for i := range ids {
 			ids[i] = fmt.Sprintf("m%02d", i)
@@ -231,30 +254,40 @@ func main() {
 		wq.Add(cf.App("Build_rrcase", bg.MembersStr(in.Members), bg.TopicsStr(in.Topics), obs),
 			cf.Sidecar{Case: caseJSON{Strategy: "roundrobin", In: &in, Plan: cp, Err: err != nil}, Kind: "roundrobin-" + kind, Nontrivial: in.Nontrivial() && err == nil, Monitor: mon})
 	}
-	nsmall := *n * 2 / 3
-	if *thorough {
-		nsmall = len(small)
-	}
-	for _, i := range r.Perm(len(small)) {
-		if nsmall == 0 {
-			break
+	if only != nil && only.In != nil {
+		switch only.Strategy {
+		case "range":
+			addRange(*only.In, "replay")
+		case "roundrobin":
+			addRR(*only.In, "replay")
 		}
-		nsmall--
-		addRange(small[i], "small")
-		addRR(small[i], "small")
 	}
-	nlarge := *n / 3
-	for i := 0; i < nlarge; i++ {
-		nm, nt, np := 1+r.Intn(8), 1+r.Intn(4), r.Intn(30)
-		if i%8 == 0 {
-			nm, nt, np = 1+r.Intn(50), 1+r.Intn(20), r.Intn(200)
+	if only == nil {
+		nsmall := *n * 2 / 3
+		if *thorough {
+			nsmall = len(small)
 		}
-		addRange(bg.Random(r, nm, nt, np, false), "random")
-		addRR(bg.Random(r, nm, nt, np, true), "random")
+		for _, i := range r.Perm(len(small)) {
+			if nsmall == 0 {
+				break
+			}
+			nsmall--
+			addRange(small[i], "small")
+			addRR(small[i], "small")
+		}
+		nlarge := *n / 3
+		for i := 0; i < nlarge; i++ {
+			nm, nt, np := 1+r.Intn(8), 1+r.Intn(4), r.Intn(30)
+			if i%8 == 0 {
+				nm, nt, np = 1+r.Intn(50), 1+r.Intn(20), r.Intn(200)
+			}
+			addRange(bg.Random(r, nm, nt, np, false), "random")
+			addRR(bg.Random(r, nm, nt, np, true), "random")
+		}
+		// degenerate round-robin inputs: the error answer
+		addRR(bg.Input{}, "empty")
+		addRR(bg.Input{Members: []bg.Member{{ID: "m0"}}}, "empty")
 	}
-	// degenerate round-robin inputs: the error answer
-	addRR(bg.Input{}, "empty")
-	addRR(bg.Input{Members: []bg.Member{{ID: "m0"}}}, "empty")
 	wr.Close()
 	wq.Close()
 
@@ -289,67 +322,74 @@ func main() {
 		}
 		return run.RawPlan
 	}
-	// the witness first (corpus)
-	addSticky(witnessInput(), "witness", "witness", 0, nil)
-	nss := *n / 4
-	if *thorough {
-		nss = len(small)
+	if only != nil && only.In != nil && only.Strategy == "sticky" {
+		in := *only.In
+		bg.EncodeUD(&in)
+		addSticky(in, "replay", only.Chain, only.Step, only.Log)
 	}
-	for _, i := range r.Perm(len(small)) {
-		if nss == 0 {
-			break
+	if only == nil {
+		// the witness first (corpus)
+		addSticky(witnessInput(), "witness", "witness", 0, nil)
+		nss := *n / 4
+		if *thorough {
+			nss = len(small)
 		}
-		nss--
-		addSticky(small[i], "small", "", 0, nil)
-	}
-	for i := 0; i < *n/40+1; i++ {
-		addSticky(bg.Random(r, 1+r.Intn(8), 1+r.Intn(4), r.Intn(30), r.Intn(2) == 0), "random", "", 0, nil)
-	}
-	// forged, skewed current assignments with arbitrary previous owners: performReassignments has real work to do; the ones
-	// that go through the reverse-pair redirection of getTheActualPartitionToBeMoved are rare and are mined for
-	nadv, npick := *n/8, *n/30+2
-	for i := 0; i < nadv; i++ {
-		addSticky(bg.Adversarial(r, 6, 3, 10), "adversarial", "", 0, nil)
-	}
-	for tries := 0; tries < 4000 && npick > 0 && hangs == 0; tries++ {
-		in := bg.Adversarial(r, 5, 3, 14)
-		probe := bg.RunSticky(in)
-		if probe.Hang {
-			hangs++
-			break
-		}
-		if probe.NPicks > 0 {
-			addSticky(in, "adversarial-redirect", "", 0, nil)
-			npick--
-		}
-	}
-	nchains := *n / 6
-	for c := 0; c < nchains; c++ {
-		kind := []string{"honest", "honest", "stale", "forged"}[c%4]
-		nm, nt, mp := 1+r.Intn(5), 1+r.Intn(3), 6
-		if c%16 == 15 {
-			nm, nt, mp = 5+r.Intn(20), 2+r.Intn(8), 12
-		}
-		w := bg.NewWorld(rand.New(rand.NewSource(r.Int63())), kind, nm, nt, mp)
-		steps := 2 + r.Intn(5)
-		for s := 0; s < steps; s++ {
-			if s > 0 {
-				w.Mutate()
-			}
-			in := w.Input(r.Intn(4) == 0)
-			plan := addSticky(in, "chain-"+kind, fmt.Sprintf("%s-%d", kind, c), s, append([]string(nil), w.Log...))
-			if plan == nil {
+		for _, i := range r.Perm(len(small)) {
+			if nss == 0 {
 				break
 			}
-			w.Feedback(plan)
+			nss--
+			addSticky(small[i], "small", "", 0, nil)
 		}
-	}
-	// the livelock witness last: its Plan call never returns and keeps one core busy until the process exits
-	if hangs == 0 {
-		save := bg.HangTimeout
-		bg.HangTimeout = 2 * time.Second
-		addSticky(livelockInput(), "witness-livelock", "witness-livelock", 0, nil)
-		bg.HangTimeout = save
+		for i := 0; i < *n/40+1; i++ {
+			addSticky(bg.Random(r, 1+r.Intn(8), 1+r.Intn(4), r.Intn(30), r.Intn(2) == 0), "random", "", 0, nil)
+		}
+		// forged, skewed current assignments with arbitrary previous owners: performReassignments has real work to do; the ones
+		// that go through the reverse-pair redirection of getTheActualPartitionToBeMoved are rare and are mined for
+		nadv, npick := *n/8, *n/30+2
+		for i := 0; i < nadv; i++ {
+			addSticky(bg.Adversarial(r, 6, 3, 10), "adversarial", "", 0, nil)
+		}
+		for tries := 0; tries < 4000 && npick > 0 && hangs == 0; tries++ {
+			in := bg.Adversarial(r, 5, 3, 14)
+			probe := bg.RunSticky(in)
+			if probe.Hang {
+				hangs++
+				break
+			}
+			if probe.NPicks > 0 {
+				addSticky(in, "adversarial-redirect", "", 0, nil)
+				npick--
+			}
+		}
+		nchains := *n / 6
+		for c := 0; c < nchains; c++ {
+			kind := []string{"honest", "honest", "stale", "forged"}[c%4]
+			nm, nt, mp := 1+r.Intn(5), 1+r.Intn(3), 6
+			if c%16 == 15 {
+				nm, nt, mp = 5+r.Intn(20), 2+r.Intn(8), 12
+			}
+			w := bg.NewWorld(rand.New(rand.NewSource(r.Int63())), kind, nm, nt, mp)
+			steps := 2 + r.Intn(5)
+			for s := 0; s < steps; s++ {
+				if s > 0 {
+					w.Mutate()
+				}
+				in := w.Input(r.Intn(4) == 0)
+				plan := addSticky(in, "chain-"+kind, fmt.Sprintf("%s-%d", kind, c), s, append([]string(nil), w.Log...))
+				if plan == nil {
+					break
+				}
+				w.Feedback(plan)
+			}
+		}
+		// the livelock witness last: its Plan call never returns and keeps one core busy until the process exits
+		if hangs == 0 {
+			save := bg.HangTimeout
+			bg.HangTimeout = 2 * time.Second
+			addSticky(livelockInput(), "witness-livelock", "witness-livelock", 0, nil)
+			bg.HangTimeout = save
+		}
 	}
 	ws.Close()
 	fmt.Printf("INFO cases bounds=%d range=%d roundrobin=%d sticky=%d\n", wb.Total, wr.Total, wq.Total, ws.Total)
